@@ -130,6 +130,8 @@ func (p *polling) onDataRequest(ctx *types.HttpContext) {
 
 	if isBinary && p.Protocol() == 4 {
 		p.OnError("invalid content", nil)
+		ctx.SetStatusCode(http.StatusBadRequest)
+		ctx.Write(nil)
 		return
 	}
 
